@@ -13,6 +13,7 @@ import (
 	"strings"
 	"testing"
 
+	"bngverif/internal/pools"
 	"bngverif/internal/vstat"
 )
 
@@ -169,6 +170,62 @@ func (m *model) crossCheck(t fataler, lookup func(string) string, reverse func(s
 				m.fail(t, "reverse-stale", "reverse lookup of %s = %q although %s gave it up and nobody was handed it since", v, got, s)
 				return
 			}
+		}
+	}
+}
+
+// stateCheck compares a free-list pool's own tables (copied through the verif accessors) with the model: every
+// subscriber the model says holds a value holds exactly that value in the pool's table; no value is allocated to two
+// keys; no value is in the free list twice; no value is allocated (per the table or per the model) and free at once;
+// a reverse index, where the pool keeps one, names the holder.
+func (m *model) stateCheck(t fataler, sn pools.Snapshotter, inRange func(string) error) {
+	t.Helper()
+	if m.dead {
+		return
+	}
+	st := sn.Snapshot()
+	byVal := map[string]string{}
+	for _, s := range subs { // fixed order: nothing here depends on map iteration
+		got := st.Allocated[sn.Key(s)]
+		if want, ok := m.has[s]; ok && got != want {
+			m.fail(t, "lookup-mismatch", "the pool's table has %q for %s, the subscriber was handed %q and never gave it up", got, s, want)
+			return
+		}
+		if got == "" {
+			continue
+		}
+		if o, dup := byVal[got]; dup {
+			m.fail(t, "duplicate-in-state", "the pool's allocated table has %s for both %s and %s", got, o, s)
+			return
+		}
+		byVal[got] = s
+		if inRange != nil {
+			if err := inRange(got); err != nil {
+				m.fail(t, "out-of-range", "allocated table: %s -> %s: %v", s, got, err)
+				return
+			}
+		}
+		if st.Reverse != nil {
+			if r := st.Reverse[got]; r != sn.Key(s) {
+				m.fail(t, "reverse-mismatch", "reverse index of %s = %q, the table says %s holds it", got, r, s)
+				return
+			}
+		}
+	}
+	free := map[string]bool{}
+	for _, v := range st.Available {
+		if free[v] {
+			m.fail(t, "free-list-duplicate", "%s is in the free list twice (two subscribers will be handed it)", v)
+			return
+		}
+		free[v] = true
+		if o, held := byVal[v]; held {
+			m.fail(t, "held-and-free", "%s is allocated to %s and in the free list at once", v, o)
+			return
+		}
+		if o, held := m.holder[v]; held {
+			m.fail(t, "held-and-free", "%s was handed to %s, who never gave it up, and is in the free list", v, o)
+			return
 		}
 	}
 }
